@@ -32,7 +32,9 @@ def check_case(ctx, spec, provided, select, runner, label):
         return None
     exp_values = ref.visible_values(spec, R, select)
     run_spec = core.with_async(spec, runner == "async", ctx.rng)
-    out = core.execute(run_spec, provided, runner, select=(select if select is not None else core.UNSET))
+    warm = ctx.rng.random() < 0.4
+    ctx.obs["warm_derive_after_use"] += int(warm)
+    out = core.execute(run_spec, provided, runner, select=(select if select is not None else core.UNSET), warm=warm)
     case = {"spec": spec, "provided": provided, "select": select, "runner": runner, "variant": label}
     inv = out.rec.invocations()
     ctx.obs["enter_events"] += sum(len(v) for v in inv.values())
